@@ -23,7 +23,7 @@ func init() {
 	})
 }
 
-var c13Moves = []string{"request", "half-open", "rst-newest", "priority-new", "window-update-new", "headers-open-block", "headers-open-block-malformed", "continuation", "continuation-end", "continuation-unfinished-field", "data-over-limit", "data-over-limit+ES", "data-at-limit+ES", "content-length-over", "request-huge-path", "ping", "settings", "finish-oldest", "request-timeout"}
+var c13Moves = []string{"request", "half-open", "rst-newest", "priority-new", "window-update-new", "headers-open-block", "headers-open-block-malformed", "continuation", "continuation-end", "continuation-unfinished-field", "data-over-limit", "data-over-limit+ES", "data-at-limit+ES", "content-length-over", "request-huge-path", "request-head-and-trailers-each-under-the-limit", "ping", "settings", "finish-oldest", "request-timeout"}
 
 type c13Case struct {
 	Path  []int    `json:"path"`
@@ -139,6 +139,14 @@ func (x *c13Run) apply(mv string) {
 		id := x.newID()
 		fields := harness.ReqFields("GET", "https", "h", "/"+valOfLen(300), [2]string{"x-sid", fmt.Sprint(id)})
 		h.SendFrames(peer.Headers(id, staticBlock(fields), peer.HeadersOpt{EndStream: true, EndHeaders: true, Pad: -1}))
+	case "request-head-and-trailers-each-under-the-limit":
+		// the opening block (397 octets by the RFC 7540 6.5.2 measure) and the trailer section (340) each stay under
+		// MaxHeaderListSize = 400; the list a handler would be given is both
+		id := x.newID()
+		fields := harness.ReqFields("POST", "https", "h", "/t", [2]string{"x-sid", fmt.Sprint(id)}, [2]string{"x-fill-a", valOfLen(150 - len(fmt.Sprint(id)) + 1)})
+		h.SendFrames(peer.Headers(id, staticBlock(fields), peer.HeadersOpt{EndHeaders: true, Pad: -1}))
+		h.SendFrames(peer.Data(id, []byte("abc"), false, -1))
+		h.SendFrames(peer.Headers(id, staticBlock([]ref.Field{{Name: "x-fill-t", Value: valOfLen(300)}}), peer.HeadersOpt{EndStream: true, EndHeaders: true, Pad: -1}))
 	case "continuation-unfinished-field":
 		// a literal whose declared length (1 MiB) never completes: the bytes can only be buffered
 		if x.blockBytes == 0 {
